@@ -13,7 +13,7 @@ import os
 import re
 import time
 
-from . import tlaval, core_model, core_real, core_replay, evidence, findings, tlc
+from . import pools, tlaval, core_model, core_real, core_replay, evidence, findings, tlc
 
 VERIF = os.path.dirname(os.path.dirname(os.path.abspath(__file__)))
 
@@ -100,12 +100,10 @@ def graph_replay(name, progs, plans, alphabet, k, extra_defs='', procs=None, fix
     procs = procs or min(16, os.cpu_count() or 1)
     divergent, devs, sample, nontrivial = [], set(), None, 0
     if total:
-        ctx = multiprocessing.get_context('fork')
-        with ctx.Pool(procs) as pool:
-            for out, d, nt in pool.imap_unordered(_replay_chunk, jobs):
-                divergent.extend(out)
-                devs |= set(d)
-                nontrivial += nt
+        for out, d, nt in pools.fork_map(_replay_chunk, jobs, procs):
+            divergent.extend(out)
+            devs |= set(d)
+            nontrivial += nt
         init0, p0 = jobs[len(jobs) // 2]
         S0 = nodes[init0]['S']
         longest = max(p0[0:50], key=len)
@@ -115,6 +113,26 @@ def graph_replay(name, progs, plans, alphabet, k, extra_defs='', procs=None, fix
     return {'states': len(nodes), 'transitions': sum(len(v) for v in edges.values()), 'paths': total, 'divergent': divergent,
             'devs': devs, 'sample': sample, 'nontrivial': nontrivial, 'tlc_s': t1 - t0, 'parse_s': t2 - t1, 'replay_s': time.time() - t2,
             'generated': res.generated}
+
+
+def graph_replay_split(r, dump=None, max_progs=3):
+    """graph_replay of a large family in groups of programs (the components of different programs are disjoint): the parsed
+    graph of one group at a time is all that is held in memory (a 17-program, K=3 checkpoint instance is several GB otherwise)."""
+    progs = r['progs']
+    if dump is not None or len(progs) <= max_progs:
+        return graph_replay(dump=dump, **r)
+    tot = None
+    for i in range(0, len(progs), max_progs):
+        g = graph_replay(**dict(r, progs=progs[i:i + max_progs], name='%s_g%d' % (r['name'], i // max_progs)))
+        if tot is None:
+            tot = g
+        else:
+            for k in ('states', 'transitions', 'paths', 'nontrivial', 'tlc_s', 'parse_s', 'replay_s', 'generated'):
+                tot[k] += g[k]
+            tot['divergent'].extend(g['divergent'])
+            tot['devs'] |= g['devs']
+            tot['sample'] = tot['sample'] or g['sample']
+    return tot
 
 
 # ---- deep random behaviours: tlc -simulate, every behaviour replayed ----------------------------------------
@@ -182,13 +200,11 @@ def simulate_replay(name, progs, plans, alphabet, k, depth=40, num=800, seed=0, 
         jobs = [files[i:i + n] for i in range(0, len(files), n)]
         divergent, devs, steps, nb = [], set(), 0, 0
         if files:
-            ctx = multiprocessing.get_context('fork')
-            with ctx.Pool(min(16, os.cpu_count() or 1)) as pool:
-                for out, d, st, nf in pool.imap_unordered(_sim_chunk, jobs):
-                    divergent.extend(out)
-                    devs |= set(d)
-                    steps += st
-                    nb += nf
+            for out, d, st, nf in pools.fork_map(_sim_chunk, jobs):
+                divergent.extend(out)
+                devs |= set(d)
+                steps += st
+                nb += nf
     finally:
         _G.clear()
         wd.cleanup()
@@ -325,7 +341,7 @@ def run_check(pid, tier, seed, mc_runs, replay_runs, level_text, assumptions, ru
         dumps = [f.result() for f in dump_f]
     pool.shutdown(wait=True)
     for r, dmp in zip(replay_runs, dumps):
-        g = graph_replay(dump=dmp, **r)
+        g = graph_replay_split(r, dump=dmp)
         replayed += g['paths']
         nontrivial += g['nontrivial']
         devs |= g['devs']
